@@ -43,8 +43,28 @@ def main():
     except MachineryFailure as err:
         print(f"MACHINERY-FAILURE [{prop}]: {err}", file=sys.stderr)
         return 2
-    except Exception:  # pylint: disable=broad-except
+    except Exception as err:  # pylint: disable=broad-except
+        # An exception that was RAISED INSIDE the library under test and is not one of the library's own
+        # classes, escaping through a public call into a scenario of the harness, is a failure of the
+        # code, not of the machinery: no listed scenario allows it (the unchanged tree never does it -
+        # there it would be exit 2 anyway).  Everything else is a machinery failure.
         traceback.print_exc()
+        try:
+            import pyrtcm
+
+            libdir = os.path.dirname(os.path.abspath(pyrtcm.__file__))
+            from .decode_rec import lib_classes
+
+            tb = traceback.extract_tb(err.__traceback__)
+            inlib = bool(tb) and os.path.abspath(tb[-1].filename).startswith(libdir)
+            if inlib and not isinstance(err, lib_classes()):
+                where = f"{os.path.basename(tb[-1].filename)}:{tb[-1].lineno}"
+                rep.reject("LibraryRaisedInScenario", {"engine": "harness", "exception": type(err).__name__},
+                           {"exception": type(err).__name__, "message": str(err)[:300], "raised_at": where,
+                            "called_from": next((f"{os.path.basename(f.filename)}:{f.lineno}" for f in reversed(tb) if "/harness/" in f.filename), "")})
+                return rep.finish(**getattr(mod, "FINISH", {}))
+        except Exception:  # pylint: disable=broad-except
+            traceback.print_exc()
         print(f"MACHINERY-FAILURE [{prop}]: unexpected exception in the harness", file=sys.stderr)
         return 2
 
